@@ -87,8 +87,66 @@ def showSweep (x : UInt64 × Nat × Option (Nat × Nat)) : String :=
   let (h, nf, first) := x
   s!"{h.toNat} {nf} " ++ (match first with | some (a, b) => s!"{a} {b}" | none => "-")
 
+/-- heterogeneous pixel types: channel widths in semantic order -/
+def hetWidths : String → Option (List Nat)
+  | "rgb565" => some [5, 6, 5] | "bgr565" => some [5, 6, 5] | "ba565" => some [5, 6, 5]
+  | "rgb332" => some [3, 3, 2] | "ba332" => some [3, 3, 2] | _ => none
+
+/-- the harness masks packed source values to the channel width -/
+def maskHet (ws : List Nat) (p : List Int) : List Int := (ws.zip p).map fun (w, x) => x % 2 ^ w
+
+def hetModel (src dst : String) (v : List Int) : Option (List Int) :=
+  match hetWidths src, hetWidths dst with
+  | none, some ws =>
+    if src == "gray8" then (if v.length = 1 then some (grayToHet .u8 ws (v.getD 0 0)) else none)
+    else if src == "gray16" then (if v.length = 1 then some (grayToHet .u16 ws (v.getD 0 0)) else none)
+    else if src == "rgb8" then (if v.length = 3 then some (rgb8ToHet ws v) else none)
+    else none
+  | some ws, none =>
+    if v.length ≠ 3 then none
+    else if dst == "rgb8" then some (hetToRgb8 ws (maskHet ws v))
+    else if dst == "gray8" then some (hetToGray8 ws (maskHet ws v))
+    else none
+  | _, _ => none
+
+/-- Spec of one heterogeneous conversion, evaluated on the implementation's channels -/
+def hetSpec (src dst : String) (v out : List Int) : Option String :=
+  let chk (S D : GilVerif.Model.C06.Ch) (x r : Int) (name : String) : Option String :=
+    (GilVerif.Model.C06.convSpec S D x r).map (fun e => name ++ "-" ++ e)
+  let names := ["red", "green", "blue"]
+  let first (xs : List (Option String)) : Option String := xs.foldl (fun acc x => acc.orElse fun _ => x) none
+  match hetWidths src, hetWidths dst with
+  | none, some ws =>
+    if src == "rgb8" then
+      if out.length ≠ 3 ∨ v.length ≠ 3 then some "shape"
+      else first ((List.range 3).map fun i => chk .u8 (.packed (ws.getD i 1)) (v.getD i 0) (out.getD i 0) (names.getD i ""))
+    else if src == "gray8" || src == "gray16" then
+      -- gray v -> rgb (v,v,v): every channel is the neutral v in that channel's OWN range
+      let S : GilVerif.Model.C06.Ch := if src == "gray16" then .u16 else .u8
+      if out.length ≠ 3 ∨ v.length ≠ 1 then some "shape"
+      else first ((List.range 3).map fun i => chk S (.packed (ws.getD i 1)) (v.getD 0 0) (out.getD i 0) ("gray-to-rgb-" ++ names.getD i ""))
+    else some "bad-op"
+  | some ws, none =>
+    let p := maskHet ws v
+    if dst == "rgb8" then
+      if out.length ≠ 3 then some "shape"
+      else first ((List.range 3).map fun i => chk (.packed (ws.getD i 1)) .u8 (p.getD i 0) (out.getD i 0) (names.getD i ""))
+    else if dst == "gray8" then
+      let y := out.getD 0 0
+      let u (i : Nat) : Float := Float.ofInt (p.getD i 0) / Float.ofInt (2 ^ (ws.getD i 1) - 1)
+      if out.length ≠ 1 then some "shape"
+      else if y < 0 ∨ y > 255 then some "range"
+      else if Float.abs (Float.ofInt y / 255.0 - (0.30 * u 0 + 0.59 * u 1 + 0.11 * u 2)) > 1.0 / 255.0 + 1.0e-9 then some "luminance-within-one-unit"
+      else none
+    else some "bad-op"
+  | _, _ => some "bad-op"
+
 def model (line : String) : String :=
   match words line with
+  | "cch" :: src :: dst :: vs =>
+    match ints vs with | some v => (match hetModel src dst v with | some o => showInts o | none => "bad-op") | none => "bad-op"
+  | "cchA" :: src :: dst :: vs =>
+    match ints vs with | some v => (match hetModel src dst v with | some o => showInts o | none => "bad-op") | none => "bad-op"
   | "cc" :: src :: dst :: vs =>
     match parsePix src, parsePix dst, ints vs with
     | some (c1, s), some (c2, t), some p =>
@@ -151,7 +209,7 @@ def ccSpec (c1 c2 : Space) (s t : Depth) (p out aux : List Int) : Option String 
   else if c1 = c2 ∧ aux ≠ out then some "same-space-per-channel"
   else none
 
-def judge (op obs : String) : String :=
+def judgeCore (op obs : String) : String :=
   let fail (s : String) := "fail " ++ s
   match words op with
   | "cc" :: src :: dst :: vs =>
@@ -215,5 +273,15 @@ def judge (op obs : String) : String :=
       else "ok"
     | _, _ => fail ("not-a-value:" ++ (obs.take 40).toString)
   | _ => fail "bad-op"
+
+def judge (op obs : String) : String :=
+  match words op with
+  | cmd :: src :: dst :: vs =>
+    if cmd == "cch" || cmd == "cchA" then
+      match ints vs, ints (words obs) with
+      | some v, some out => (match hetSpec src dst v out with | some e => "fail " ++ e | none => "ok")
+      | _, _ => "fail not-a-value:" ++ (obs.take 40).toString
+    else judgeCore op obs
+  | _ => judgeCore op obs
 
 def main (args : List String) : IO UInt32 := Driver.main' model judge args
